@@ -1475,6 +1475,9 @@ func (h *hist) runSharedKey(variant string) {
 
 func childBase(b run.Batch, r *ev.Result) {
 	switch b.Kind {
+	case "fleet":
+		childFleet(b, r)
+		return
 	case "partialwrite":
 		childPartialWrite(b, r)
 		return
